@@ -68,8 +68,24 @@ static int pickR(const Args& A, int named) {
   else { if (r == "int") return run<W, E, int>(A, named); return run<W, E, E>(A, named); }
 }
 
+// alias_names: the exposed type of every alias is the type its name says (observed on the real header through decltype(load()))
+template <typename W, typename E> static int alias_is(const char* name) {
+  bool ok = std::is_same_v<decltype(std::declval<const W&>().load()), E>;
+  if (!ok) printf("POSTCONDITION VIOLATED on the real code: %s::load() does not return the type the alias is named after\n", name);
+  return ok ? 0 : 1;
+}
+
 int main(int argc, char** argv) {
   Args A(argc, argv);
+  if (A.mode == "alias_names") {
+    int bad = 0;
+#define AL(name, E) bad += alias_is<name, E>(#name);
+    AL(be_uint16_t, uint16_t) AL(be_int16_t, int16_t) AL(be_uint32_t, uint32_t) AL(be_int32_t, int32_t) AL(be_uint64_t, uint64_t) AL(be_int64_t, int64_t) AL(be_float, float) AL(be_double, double)
+    AL(le_uint16_t, uint16_t) AL(le_int16_t, int16_t) AL(le_uint32_t, uint32_t) AL(le_int32_t, int32_t) AL(le_uint64_t, uint64_t) AL(le_int64_t, int64_t) AL(le_float, float) AL(le_double, double)
+    AL(re_uint16_t, uint16_t) AL(re_int16_t, int16_t) AL(re_uint32_t, uint32_t) AL(re_int32_t, int32_t) AL(re_uint64_t, uint64_t) AL(re_int64_t, int64_t) AL(re_float, float) AL(re_double, double)
+    if (!bad) printf("holds on this input\n");
+    return bad ? 1 : 0;
+  }
   std::string t = A.extra.empty() ? "" : A.extra[0];
   printf("member=%s type=%s R=%s raw=0x%llX v=0x%llX d=0x%llX\n", A.mode.c_str(), t.c_str(), A.extra.size() > 1 ? A.extra[1].c_str() : "-",
       (unsigned long long)A.u("g_self_raw"), (unsigned long long)A.u("in_v"), (unsigned long long)A.u("in_d"));
